@@ -11,7 +11,7 @@ import vlib
 from vlib import Infra, log
 
 HARNESS_FILES = ["zz_verif_common_test.go", "zz_verif_algo_test.go", "zz_verif_algo_cases_test.go",
-                 "zz_verif_algo_record_test.go"]
+                 "zz_verif_algo_record_test.go", "zz_verif_algo_hist_test.go"]
 KINDS = ["v2", "v1", "exact", "boundary", "prefix", "suffix", "equal"]
 _TAG = re.compile(r'^<<"(CASE|TABLE|THMFAIL)", (.*)>>$')
 
@@ -28,6 +28,7 @@ def model_check(ctx, cfgs, workers=None):
     """Design theorems of MC_Algo on the exhaustive enumeration; a THMFAIL is a defect of the model (exit 2)."""
     for cfg in cfgs:
         res = ctx.mc("MC_Algo", cfg, timeout=3000, workers=workers)
+        log("model-checked %s: %d states in %.0fs" % (cfg, res.distinct, res.wall))
         fails = res.json_items("THMFAIL")
         if fails:
             raise Infra("design theorem fails on the model (%s): %s" % (cfg, json.dumps(fails[:3])))
@@ -38,6 +39,7 @@ def export_cases(ctx, cfg, label, workers=None, stats=None):
     """Run a Gen_Algo config; write the cases (one JSON object per line) and the symbol table to files without keeping
     them in memory.  Returns (cases_path, table_path, n_cases).  stats: dict updated with coverage counters."""
     res = ctx.tlc("MC_Algo", cfg, timeout=3000, label="gen-" + label, workers=workers)
+    log("exported %s: %d states in %.0fs" % (cfg, res.distinct, res.wall))
     res.tagged.clear()
     cpath = os.path.join(ctx.work, "cases-%s.ndjson" % label)
     tpath = os.path.join(ctx.work, "table-%s.json" % label)
@@ -86,12 +88,273 @@ def count_case(stats, c):
 
 
 def run_cases(ctx, binary, cpath, tpath, fields, fills, label, timeout=3000):
-    """Replay a case file; returns (summary, list of (line_no, bad_list))."""
+    """Replay a case file; returns (summary, [{"line": n, "bad": [...], "judge": [...]}, ...])."""
     opath = os.path.join(ctx.work, "out-%s.ndjson" % label)
     ctx.run_harness(binary, "TestVerifAlgoCases", timeout=timeout,
                     env={"VERIF_CASES": cpath, "VERIF_OUT": opath, "VERIF_TABLE": tpath, "VERIF_FIELDS": fields,
                          "VERIF_FILLS": ",".join(fills), "VERIF_PAR": par(ctx)})
     recs = vlib.read_ndjson(opath)
+    log("replayed %s (%s): %s" % (label, fields, json.dumps(recs[-1])[:300] if recs else "nothing"))
     if not recs or not recs[-1].get("summary"):
         raise Infra("harness wrote no summary (%s)" % label)
-    return recs[-1], [(r["line"], r["bad"]) for r in recs[:-1]]
+    return recs[-1], recs[:-1]
+
+
+# ---------------------------------------------------------------- findings: precise signatures of known defect classes
+def classify(case_p_len, b):
+    """kf signature of a mismatch `b` (one variant of one call) if it belongs to a class already analysed, else None.
+    The signature names the call site and the compared field, so anything else stays a plain violation."""
+    fn, field = b.get("fn"), b.get("field")
+    if fn == "ExactMatchBoundary" and b.get("fwd") is False and field == "matched" and b.get("exp") is True \
+            and case_p_len > 1:
+        return {"finding": "F1", "fn": "ExactMatchBoundary", "forward": False, "field": "matched", "multichar": True}
+    if fn == "FuzzyMatchV2" and field == "start" and b.get("withPos") is False and case_p_len > 1:
+        return {"finding": "F7", "fn": "FuzzyMatchV2", "field": "start", "cmp": "withPos"}
+    if fn == "FuzzyMatchV2" and field in ("pos", "start") and b.get("withPos") is True \
+            and b.get("fill") in ("max", "neg", "rnd", "stale") and b.get("ref") is not None and b.get("ref") == b.get("exp"):
+        return {"finding": "F9", "fn": "FuzzyMatchV2", "field": "pos", "cmp": "slab"}
+    if fn == "FuzzyMatchV2" and b.get("fwd") is True and case_p_len == 1 and field == "score" \
+            and isinstance(b.get("got"), int) and isinstance(b.get("exp"), int) and b["got"] < b["exp"]:
+        return {"finding": "F13", "fn": "FuzzyMatchV2", "field": "score", "forward": True, "patlen": 1}
+    return None
+
+
+def fmt_case(c):
+    return "text=%s pattern=%s cs=%s norm=%s scheme=%s" % (json.dumps("|".join(c["t"])), json.dumps("|".join(c["p"])),
+                                                           c["cs"], c["norm"], c["sch"])
+
+
+def report_bad(ctx, binary, cpath, tpath, fields, fills, label, bads, keep=lambda b: True, per_sig=3):
+    """bads: [(line_no, bad_list)] from run_cases.  Each selected mismatch class is re-run alone (the single case in a
+    file of its own); reproduced ones become violations, at most per_sig per signature.  Returns counters."""
+    if not bads:
+        return {}
+    lines = None
+    seen = {}
+    counts = {}
+    for line_no, bl in bads:
+        bl = [b for b in bl if keep(b)]
+        if not bl:
+            continue
+        if lines is None:
+            with open(cpath) as fh:
+                lines = fh.readlines()
+        case = json.loads(lines[line_no])
+        groups = {}
+        for b in bl:
+            sig = classify(len(case["p"]), b)
+            key = json.dumps(sig, sort_keys=True) if sig else "other:%s:%s:%s" % (b["fn"], b["field"], b.get("fwd"))
+            groups.setdefault(key, (sig, []))[1].append(b)
+        for key, (sig, bs) in groups.items():
+            counts[key] = counts.get(key, 0) + 1
+            if seen.get(key, 0) >= per_sig:
+                continue
+            seen[key] = seen.get(key, 0) + 1
+            one = os.path.join(ctx.work, "one-%s.ndjson" % label)
+            with open(one, "w") as fh:
+                fh.write(lines[line_no])
+            _, again = run_cases(ctx, binary, one, tpath, fields, fills, label + "-re")
+            bl2 = [b for r2 in again for b in r2["bad"] if keep(b)]
+            same = [b for b in bl2 if (classify(len(case["p"]), b) == sig if sig else (b["fn"], b["field"]) == (bs[0]["fn"], bs[0]["field"]))]
+            if not same:
+                raise Infra("%s: mismatch on case %d not reproduced when run alone: %s" % (label, line_no, json.dumps(bs[0])))
+            b = same[0]
+            what = "%s: %s(%s forward=%s withPos=%s rep=%s slab=%s fill=%s): %s: spec %s, real %s%s" % (
+                label, b["fn"], fmt_case(case), b["fwd"], b["withPos"], b.get("rep"), b.get("slab"), b.get("fill"),
+                b["field"], json.dumps(b["exp"]), json.dumps(b["got"]),
+                (" (reference call: %s)" % json.dumps(b["ref"])) if b.get("ref") is not None else "")
+            rec = {"harness": "TestVerifAlgoCases", "label": label, "case": case, "mismatch": b, "all": same[:6],
+                   "fields": fields, "fills": fills}
+            if sig:
+                rec["kf"] = sig
+            ctx.violation(what, rec)
+    return counts
+
+
+def check_table(ctx, summary, label):
+    if summary.get("table_bad"):
+        ctx.violation("%s: symbol table of the spec disagrees with the real classification/folding functions: %s"
+                      % (label, "; ".join(summary["table_bad"][:5])), {"table_bad": summary["table_bad"]})
+
+
+# ---------------------------------------------------------------- J: inputs TLC cannot enumerate
+J_SYMS = (["a", "b", "c", "e"] * 6 + ["A", "B", "C"] * 3 + ["1", "2"] * 2 + ["a~", "A~", "e~", "han"] +
+          [" "] * 4 + ["TAB", "_", "_", "-", "-", ".", "/", "/", ",", ":", ";", "|", "$"])
+J_ASCII = [s for s in J_SYMS if s not in ("a~", "A~", "e~", "han")]
+
+
+class Folder:
+    """Folding tables taken from the TABLE line TLC printed (spec/FzfChars.tla), used only to GENERATE admissible
+    patterns (lower-case when case-insensitive, accent-free when normalising) - never to compute an expectation."""
+
+    def __init__(self, tpath):
+        t = json.load(open(tpath))
+        self.lower = {e["sym"]: e["lower"] for e in t["syms"]}
+        self.norm = {e["sym"]: e["norm"] for e in t["syms"]}
+        self.space = {e["sym"] for e in t["syms"] if e["space"]}
+        self.table = t
+
+    def fold(self, s, cs, norm):
+        s = s if cs else self.lower[s]
+        return self.norm[s] if norm else s
+
+
+def rand_text(rng, n, ascii_only=None):
+    if ascii_only is None:
+        ascii_only = rng.random() < 0.5
+    syms = J_ASCII if ascii_only else J_SYMS
+    out = []
+    while len(out) < n:           # words separated by blanks / delimiters so that every bonus class occurs
+        out += [rng.choice(syms) for _ in range(rng.randint(1, 9))]
+        if rng.random() < 0.5:
+            out.append(rng.choice([" ", "/", "_", "-", ","]))
+    if rng.random() < 0.25:
+        out = [" "] * rng.randint(1, 2) + out
+    if rng.random() < 0.25:
+        out = out + [rng.choice([" ", "TAB"])] * rng.randint(1, 2)
+    return out[:n]
+
+
+def rand_pattern(rng, fo, text, m, cs, norm):
+    """A pattern that is admissible for (cs, norm); mostly derived from the text so that matchers have work to do."""
+    ft = [fo.fold(s, cs, norm) for s in text]
+    shape = rng.choice(["subseq", "subseq", "subseq", "substr", "substr", "prefix", "suffix", "whole", "random", "near"])
+    n = len(ft)
+    lead = 0
+    while lead < n and text[lead] in fo.space:
+        lead += 1
+    trail = n
+    while trail > 0 and text[trail - 1] in fo.space:
+        trail -= 1
+    m = max(1, min(m, n)) if n else 1
+    if n == 0 or shape == "random":
+        p = [rng.choice(J_SYMS) for _ in range(m)]
+    elif shape in ("subseq", "near"):
+        p = [ft[i] for i in sorted(rng.sample(range(n), m))]
+        if shape == "near":
+            p[rng.randrange(len(p))] = rng.choice(J_SYMS)
+    elif shape == "substr":
+        i = rng.randint(0, n - m)
+        p = ft[i:i + m]
+    elif shape == "prefix":
+        p = ft[lead:lead + m] or ft[:m]
+    elif shape == "suffix":
+        p = ft[max(0, trail - m):trail] or ft[-m:]
+    else:
+        p = ft[lead:trail] or ft[:m]
+        p = p[:12]
+    return [fo.fold(fo.fold(s, cs, norm), cs, norm) for s in p]      # folding is idempotent on the table
+
+
+def rand_call_context(rng, big_ok=True):
+    slab = rng.choice(["nil", "real", "real", "cap:16:8", "cap:64:4", "cap:300:16", "cap:2000:40"])
+    return {"slab": slab, "rep": rng.choice(["natural", "runes"]), "wp": rng.random() < 0.6}
+
+
+def j_inputs(ctx, fo, n_inputs, max_len, max_pat, chk, fills=("zero",), kinds=KINDS, withref=False, v2_weight=1):
+    """n_inputs random (text, pattern, options); each yields one record per matcher kind and direction, in a random
+    call context (slab size, representation, positions)."""
+    rng = ctx.rng
+    out = []
+    for _ in range(n_inputs):
+        n = rng.choice([rng.randint(0, 12), rng.randint(8, max(8, max_len // 3)), rng.randint(max_len // 2, max_len)])
+        text = rand_text(rng, n)
+        cs, norm = rng.random() < 0.4, rng.random() < 0.5
+        pat = rand_pattern(rng, fo, text, rng.randint(1, max_pat), cs, norm)
+        sch = rng.choice(["default", "default", "path", "history"])
+        for kind in kinds:
+            for fwd in (True, False):
+                for _rep in range(v2_weight if kind == "v2" else 1):
+                    r = {"t": text, "p": pat, "cs": cs, "norm": norm, "sch": sch, "kind": kind, "fwd": fwd, "chk": chk,
+                         "fill": rng.choice(list(fills))}
+                    r.update(rand_call_context(rng))
+                    if withref:
+                        r["withref"] = True
+                    out.append(r)
+    return out
+
+
+def giant_inputs(ctx, fo, n_inputs):
+    """Lines longer than 65535 runes (and than the real slab), run-length encoded: two or three giant runs among
+    short ones; the pattern is taken from the run symbols so that witnesses exist across the giant runs."""
+    rng = ctx.rng
+    out = []
+    for _ in range(n_inputs):
+        ascii_only = rng.random() < 0.6
+        syms = [s for s in (J_ASCII if ascii_only else J_SYMS)]
+        runs = [[rng.choice(syms), rng.randint(1, 3)] for _ in range(rng.randint(6, 12))]
+        for _g in range(rng.randint(1, 2)):
+            runs[rng.randrange(len(runs))][1] = rng.randint(33000, 70000)
+        if sum(c for _, c in runs) <= 65535:
+            runs[rng.randrange(len(runs))][1] += 66000
+        merged = []
+        for s, c in runs:
+            if merged and merged[-1][0] == s:
+                merged[-1][1] += c
+            else:
+                merged.append([s, c])
+        cs, norm = rng.random() < 0.4, rng.random() < 0.5
+        small = [s for s, c in merged for _k in range(min(c, 3))]
+        pat = rand_pattern(rng, fo, small, rng.randint(1, 3), cs, norm)
+        sch = rng.choice(["default", "path", "history"])
+        for kind in KINDS:
+            for fwd in (True, False):
+                out.append({"rle": merged, "p": pat, "cs": cs, "norm": norm, "sch": sch, "kind": kind, "fwd": fwd,
+                            "chk": "rle", "fill": "zero", "slab": rng.choice(["nil", "real"]),
+                            "rep": rng.choice(["natural", "runes"]), "wp": rng.random() < 0.7})
+    return out
+
+
+def record(ctx, binary, inputs, tpath, label, timeout=3000):
+    ipath = os.path.join(ctx.work, "in-%s.ndjson" % label)
+    opath = os.path.join(ctx.work, "rec-%s.ndjson" % label)
+    vlib.write_ndjson(ipath, inputs)
+    ctx.run_harness(binary, "TestVerifAlgoRecord", timeout=timeout,
+                    env={"VERIF_CASES": ipath, "VERIF_OUT": opath, "VERIF_TABLE": tpath})
+    recs = vlib.read_ndjson(opath)
+    if len(recs) != len(inputs):
+        raise Infra("%s: %d inputs but %d records" % (label, len(inputs), len(recs)))
+    return recs
+
+
+def fmt_rec(r):
+    text = ("rle=" + json.dumps(r["rle"])) if "rle" in r else "text=" + json.dumps("|".join(r["t"]))
+    return "%s(%s pattern=%s cs=%s norm=%s scheme=%s forward=%s withPos=%s rep=%s slab=%s fill=%s) returned start=%s end=%s " \
+           "score=%s pos=%s%s" % (r["kind"], text if len(text) < 700 else text[:700] + "...", json.dumps("|".join(r["p"])),
+                                  r["cs"], r["norm"], r["sch"], r["fwd"], r["wp"], r["rep"], r["slab"], r["fill"], r["s"],
+                                  r["e"], r["sc"], r["pos"], (" PANIC " + r["panic"]) if r.get("panic") else "")
+
+
+def record_and_judge(ctx, binary, inputs, tpath, label, keep=lambda r: True, kf=lambda r: None, workers=None,
+                     per_sig=3, timeout=3000):
+    """Real matchers on `inputs` -> records -> Judge_Algo.tla.  Rejected records that pass `keep` are re-run alone
+    (same input, new process) and re-judged; reproduced rejections become violations.  Returns (records, counts)."""
+    recs = record(ctx, binary, inputs, tpath, label, timeout)
+    bad, _ = vlib.judge(ctx, "Judge_Algo", "Judge_Algo.cfg", recs, label, workers=workers, timeout=timeout)
+    counts = {"rejected": len(bad), "deferred": 0}
+    seen = {}
+    for i in bad:
+        r = recs[i]
+        if not keep(r):
+            counts["deferred"] += 1
+            continue
+        sig = kf(r)
+        key = json.dumps(sig, sort_keys=True) if sig else "other:" + r["kind"]
+        counts[key] = counts.get(key, 0) + 1
+        if seen.get(key, 0) >= per_sig:
+            continue
+        seen[key] = seen.get(key, 0) + 1
+        if inputs[i].get("fill") in ("stale", "rnd"):
+            # the slab contents depend on the calls before: replay the whole (seeded, deterministic) history
+            recs2 = [record(ctx, binary, inputs, tpath, label + "-re", timeout)[i]]
+        else:
+            recs2 = record(ctx, binary, [inputs[i]], tpath, label + "-re", timeout)
+        bad2, _ = vlib.judge(ctx, "Judge_Algo", "Judge_Algo.cfg", recs2, label + "-re", workers=1, timeout=timeout)
+        if not bad2 or not keep(recs2[0]):
+            raise Infra("%s: rejected record %d not reproduced when run again" % (label, i))
+        what = "%s: spec rejects what the real code did: %s" % (label, fmt_rec(recs2[0]))
+        case = {"harness": "TestVerifAlgoRecord", "label": label, "input": inputs[i], "record": recs2[0]}
+        if sig:
+            case["kf"] = sig
+        ctx.violation(what, case)
+    return recs, counts
